@@ -310,6 +310,9 @@ func genHist(t *rapid.T, c swCase) *history {
 func genSWHist(t *rapid.T) swCase {
 	c := genSW(t)
 	c.Plan = nil
+	if c.S1 == "" || c.S2 == "" {
+		return c // nothing to edit in place
+	}
 	if rapid.IntRange(0, 3).Draw(t, "builtin") != 0 && !c.Sch.Matrix {
 		// the built-in matrices are where the alphabet of the contents decides: most cases use them
 		c.Sch.Matrix, c.Sch.Match, c.Sch.Mismatch = true, 0, 0
